@@ -883,6 +883,9 @@ func runC04(c *Ctx) {
 	}
 	c.floor("R7", 30)
 
+	// ---------- R9 a failed send is never taken for end of file ----------
+	checkEOFIsTheServersWord(c, "R9")
+
 	// ---------- R8 no client lock is leaked: a later call would hang ----------
 	checkLockBalance(c, "R8", func(fn *ssa.Function) bool { return !isServerSide(fn) && outermost(fn).Package() == p.Sftp }, 15)
 }
@@ -1331,4 +1334,41 @@ func checkUnknownIDEndsSession(c *Ctx, rule string) {
 	if n == 0 {
 		c.bad(rule, "a reply with an unknown id ends the session", p.Pos(recv.Pos()), "recv does not test whether the id of a reply is known")
 	}
+}
+
+// checkEOFIsTheServersWord (C04.R9): on the download paths io.EOF means "the server answered SSH_FX_EOF"
+// (normaliseError returns the bare sentinel).  A failed send is reported as `failed to send packet: %w`, and the
+// transport's error may itself be io.EOF (x/crypto/ssh's channel.Write after close).  The download paths must
+// therefore recognise end of file by identity; errors.Is would also match the wrapped transport error and turn a
+// lost connection into a successful, truncated download.
+func checkEOFIsTheServersWord(c *Ctx, rule string) {
+	p := c.P
+	n := 0
+	for _, name := range []string{"(*File).WriteTo", "(*File).writeToSequential", "(*File).readAt", "(*File).readAtSequential", "(*File).readChunkAt", "(*File).Read"} {
+		fn := p.Func(name)
+		if fn == nil {
+			continue
+		}
+		eachInstrDeep(fn, func(g *ssa.Function, in ssa.Instruction) {
+			cc := callOf(in)
+			isEOF := func(v ssa.Value) bool {
+				for _, l := range leavesOf(v) {
+					if l.Kind == leafGlobal && l.V.Name() == "EOF" {
+						return true
+					}
+				}
+				return false
+			}
+			if cc != nil && callIs(cc, "errors.Is") && len(cc.Args) == 2 && isEOF(cc.Args[1]) {
+				n++
+				c.bad(rule, fmt.Sprintf("%s: end of file recognised by identity #%d", name, n), p.Pos(in.Pos()), "errors.Is(err, io.EOF) on a download path also matches a failed send that wraps io.EOF (\"failed to send packet: EOF\"): a lost connection ends the download with a nil error")
+				return
+			}
+			if b, ok := in.(*ssa.BinOp); ok && (b.Op == token.EQL || b.Op == token.NEQ) && (isEOF(b.X) || isEOF(b.Y)) {
+				n++
+				c.ok(rule, fmt.Sprintf("%s: end of file recognised by identity #%d", name, n), p.Pos(in.Pos()), "err == io.EOF")
+			}
+		})
+	}
+	c.check(n >= 3, rule, "EOF tests on the download paths", "?", fmt.Sprintf("%d tests", n), fmt.Sprintf("only %d EOF tests found on the download paths", n))
 }
